@@ -255,6 +255,8 @@ class TaskLaneSpec:
                     return ev['kind'] == 'obs' and ev['name'] == 'call' and parse_smt(ev['args'][0]['smt'], {}).as_long() == k
                 def is_default(ev):
                     return ev['kind'] == 'select' and not ev.get('blocking') and ev['outcome'] == -1 and any(cs['chan'] == done for cs in ev['cases'])
+                if not any(is_call(t['ev']) for t in trans):
+                    continue  # task k is pushed by another producer: this process says nothing about late_k
                 val = {l: None for l in range(p['nlocs'])}   # None unreached; True/False = "default passed since call k" on all paths
                 val[p['init']] = False
                 ch = True
